@@ -156,3 +156,64 @@ def iterrowreduce(h):
             ctx.oblige('iterrowreduce: the given header first, once; nothing after the last group',
                        z3.And(pre.len == 1, _t(row_eq(out_row(pre, 0), header)), res.out.len == 0))
     h.explore(body)
+
+
+@vc('C09.itermultiaggregate', functions=[RD + 'itermultiaggregate', 'petl.util.base.rowgroupby'], props=['C09', 'C03'],
+    assumptions=['T2 groupby at group level; single key field; rectangular table',
+                 'two output fields: one aggregating whole rows (a callable), one aggregating the values of a field (field, callable); uninterpreted callbacks',
+                 'stateless-body rule over the groups'])
+def itermultiaggregate(h):
+    def body(ctx):
+        agg1, agg2 = UCall('rowsagg'), UCall('valsagg')
+
+        def delta(ls, x, dout):
+            e = z3.Select(ls.base.arr, ls.k.t)
+            grows = view_seq(SCell(bi.grp_rows(e)))
+            a1 = getattr(agg1, 'last_args', [None])[0]
+            a2 = getattr(agg2, 'last_args', [None])[0]
+            ok = z3.BoolVal(False)
+            if isinstance(a1, Seq) and isinstance(a2, Seq):
+                q = smt.fresh_int('q')
+                r1 = bi.ucall_terms('rowsagg', [as_v(a1)])[0]
+                r2 = bi.ucall_terms('valsagg', [as_v(a2)])[0]
+                o = out_row(dout, 0)
+                vidx = box['vidx']
+                ok = z3.And(_t(row_eq(a1, grows)),
+                            a2.len == grows.len,
+                            z3.ForAll([q], z3.Implies(z3.And(0 <= q, q < a2.len), z3.Select(a2.arr, q) == z3.Select(smt.seq_arr(z3.Select(grows.arr, q)), vidx))),
+                            dout.len == 1, o.len == 3, z3.Select(o.arr, 0) == bi.grp_inner(e), z3.Select(o.arr, 1) == r1, z3.Select(o.arr, 2) == r2)
+            ctx.oblige('itermultiaggregate: one output row per group: (key, rows-aggregate of exactly this group\'s rows, value-aggregate of exactly '
+                       'their values of the named field, in order), output fields in the order given', ok)
+        it = h.interp(ctx, loops={(RD + 'itermultiaggregate', 2): LoopSpec(delta=delta, label='groups')})
+        S = fixed_header_table(ctx)
+        install(it, ctx, S)
+        box = {'vidx': z3.IntVal(1)}
+        d = bi.SDict(it)
+        d.setitem(it, 'n', agg1)
+        d.setitem(it, 'vs', ('v', agg2))
+        res = run_generator(it, closure_of(it, RD + 'itermultiaggregate'), [S, 'k', d])
+        if res.exc is not None:
+            inloop = getattr(ctx, 'in_iteration', None)
+            ctx.oblige('itermultiaggregate: only an aggregation function\'s own exception escapes, at its group',
+                       z3.BoolVal(res.exc.kind == 'UserError' and inloop is not None), res.exc.origin or '')
+            return
+        if getattr(ctx, 'after_loop', None):
+            pre = ctx.pre_loop_out
+            o = out_row(pre, 0)
+            ctx.oblige('itermultiaggregate: header = (key field, output fields in the order given), once; nothing after the last group',
+                       z3.And(pre.len == 1, o.len == 3, z3.Select(o.arr, 0) == as_v('k'), z3.Select(o.arr, 1) == as_v('n'), z3.Select(o.arr, 2) == as_v('vs'), res.out.len == 0))
+    h.explore(body)
+
+
+def fixed_header_table(ctx):
+    """a table with the concrete header ('k', 'v') and any number of (rectangular) data rows"""
+    S = sym_table(ctx, 'S', nmin=1)
+    rows_are_sequences(ctx, S)
+    rectangular(ctx, S)
+    hdr = src_row(S, 0)
+    ctx.facts.append(z3.And(hdr.len == 2, z3.Select(hdr.arr, 0) == as_v('k'), z3.Select(hdr.arr, 1) == as_v('v')))
+    x = z3.Const('x!s', smt.V)
+    ctx.facts.append(z3.ForAll([x], z3.Implies(smt.cls(x) == smt.TEXT, bi._strf(x) == x)))      # str(s) is s for a str (T6)
+    ctx.facts.append(smt.py_eq(as_v('k'), as_v('k')))
+    ctx.facts.append(z3.Not(smt.py_eq(as_v('k'), as_v('v'))))
+    return S
